@@ -276,8 +276,19 @@ impl fmt::Display for Problem {
             writeln!(f, "tff(type_function_constant_{i}, type, {name}: {sort}).")?
         }
 
+        // Order the constants by the symbols they stand for: a symbol `s` clashing with a
+        // propositional predicate is written `s__s` (see rename_conflicting_symbols)
+        let propositional: IndexSet<String> = self
+            .predicates()
+            .into_iter()
+            .filter(|p| p.arity == 0)
+            .map(|p| p.symbol)
+            .collect();
         let mut symbols = Vec::from_iter(self.symbols());
-        symbols.sort_unstable();
+        symbols.sort_unstable_by_key(|s| match s.strip_suffix("__s") {
+            Some(original) if propositional.contains(original) => original.to_string(),
+            _ => s.clone(),
+        });
         for (i, s) in symbols.windows(2).enumerate() {
             writeln!(
                 f,
